@@ -428,6 +428,16 @@ class StoreRun:
                 dense[i, j] = v
                 dense[j, i] = v
             pixels = ArrayLoader(binsdf, dense, chunksize=op["arraychunk"])
+            # the caller keeps ONE loader object and creates from it again (another destination, or a
+            # repeat after a failed attempt): every creation reads the whole matrix
+            if op.get("loader_object") == "keep":
+                self._loader_obj = (pixels, [list(v) for v in (ch["bin1_id"], ch["bin2_id"], ch["count"])], nb)
+            elif op.get("loader_object") == "reuse":
+                kept = getattr(self, "_loader_obj", None)
+                if kept is None or kept[1] != [list(v) for v in (ch["bin1_id"], ch["bin2_id"], ch["count"])] or kept[2] != nb:
+                    raise Skip("no kept loader for this matrix")
+                pixels = kept[0]
+                self.stat("loader-object-reused")
         else:
             pixels = self._iter_chunks(chunks, dtypes, form == "iterdict", f2_at, holder)
         if fault and fault["kind"] == "F0":
